@@ -184,10 +184,17 @@ format_t::element_t * format_t::parse_elements(const string& fmt,
       ++p;
     }
 
+    // unistring, which pads and truncates the fields, handles fewer than 4096
+    // characters; without a bound here the number can overflow, and padding
+    // to it takes gigabytes
+    const std::size_t max_field_width = 4095;
+
     std::size_t num = 0;
     while (*p && std::isdigit(static_cast<unsigned char>(*p))) {
       num *= 10;
       num += static_cast<std::size_t>(*p++ - '0');
+      if (num > max_field_width)
+        throw_(format_error, _("Field width is too large"));
     }
     current->min_width = num;
 
@@ -197,6 +204,8 @@ format_t::element_t * format_t::parse_elements(const string& fmt,
       while (*p && std::isdigit(static_cast<unsigned char>(*p))) {
         num *= 10;
         num += static_cast<std::size_t>(*p++ - '0');
+        if (num > max_field_width)
+          throw_(format_error, _("Field width is too large"));
       }
       current->max_width = num;
       if (current->min_width == 0)
